@@ -26,24 +26,36 @@ def C(design, technique, text, note, category='other'):
 
 
 CHECKS = {
-    'C01': C('4 C01', 'run-time contract over exhaustive small scope (bounded); str-input VC of python_bytes_to_unicode',
-             _B + '; oracle is the input text itself (module, every subtree, leaves tiling, bytes input)',
-             'nothing about the tokenizer/parser tiling is proved: the deductive plan of DESIGN 4/C01 (split_lines, tokenize_lines '
-             'tiling, one-leaf-per-token, get_code) is not discharged; bounded only'),
-    'C02': C('4 C02', 'exact table facts (T) + run-time contract over exhaustive small scope and nesting generators (bounded)',
-             'T: no nullable rule, ENDMARKER only in start rules, ERRORTOKEN/ERROR_DEDENT in no rule, suite shape, for all 9 '
-             'grammars; ' + _B + ' plus nesting up to depth 100 under the default recursion limit',
-             'engine exception-freedom/termination obligations not discharged; A-REC'),
+    'C01': C('4 C01', 'VCs of the get_code family (slice normal form over a ghost input text) and of token->leaf construction, discharged by z3; '
+             'tokenizer helper VCs; run-time contract over exhaustive small scope (bounded)',
+             'D: Leaf.get_code / BaseNode.get_code / _get_code_for_children return exactly the slice of the input their subtree '
+             'spans (theories tree+tile, join folds); Parser.convert_leaf, Leaf.__init__: one leaf per token with the token\'s text, '
+             'prefix, position; _close_fstring_if_necessary, _find_fstring_string, _split_illegal_unicode_name tile the text they '
+             'consume; str branch of python_bytes_to_unicode; ' + _B + '; oracle is the input text itself',
+             'that tokenize_lines and the parser establish the tiling invariant (wf+tile) is not proved: bounded only'),
+    'C02': C('4 C02', 'VCs of the parser engine path (parse driver, _add_token, _pop, error_recovery in both modes, _stack_removal) discharged by z3; '
+             'exact table facts (T); frame obligations; run-time contract over exhaustive small scope and nesting generators (bounded)',
+             'D: BaseParser.parse / _add_token / _pop / Parser.error_recovery (strict, recovering, closure current_suite) / '
+             '_stack_removal raise no IndexError, KeyError, AttributeError, UnboundLocalError and keep the stack well formed; parse '
+             'returns a node; frames of all of them cover the real writes; T: no nullable rule, ENDMARKER only in start rules, '
+             'ERRORTOKEN/ERROR_DEDENT in no rule, suite shape, table shape, for all 9 grammars; ' + _B + ' plus nesting up to depth '
+             '100 under the default recursion limit',
+             'convert_node (dynamic class lookup) assumed; per-iteration assumptions of parse and caller-side preconditions of '
+             'error_recovery are listed in the evidence; termination of the error_recovery/_add_token recursion not proved; '
+             'tokenizer and Grammar._parse not under contract; A-REC'),
     'C03': C('4 C03', 'VCs of every end_pos/start_pos implementation against one spec function, discharged by z3; regex class '
              'invariants; bounded walk of the input',
              'D: Leaf.end_pos, _LeafWithoutNewlines.end_pos, PrefixPart.end_pos/create_spacing_part, start_pos getter/setter '
              'equal advance(start, value) for all values; ' + _B,
-             'tokenizer start positions (true_pos) and node delegation are bounded only; split_lines(keepends=False) contract '
-             'trusted from re.split (validated exhaustively in C15)'),
-    'C04': C('4 C04', 'run-time contract over enumerated edit histories (bounded); oracle = batch parser',
-             'every single edit, capped pairs and seeded longer histories over base texts: dump, code, parents and used names '
-             'equal a fresh parse after every step',
-             'partly applicable: no inductive invariant for the copy conditions within reach; bounded only'),
+             'tokenizer start positions (true_pos) are bounded only except in the f-string / illegal-name helpers; node delegation '
+             'is proved over ghost spos/epos; split_lines(keepends=False) contract trusted from re.split (validated exhaustively in C15)'),
+    'C04': C('4 C04', 'VCs of the position update and leaf walks of the diff parser over a ghost leaf numbering (z3); run-time contract '
+             'over enumerated edit histories (bounded); oracle = batch parser',
+             'D: _update_positions shifts exactly the leaves from the first copied leaf up to last_leaf, writes only `line`, raises '
+             'iff last_leaf is among them; _get_previous/_next_leaf_if_indentation, _skip_dedent_error_leaves return the nearest '
+             'non-indentation leaf; B: every single edit, capped pairs and seeded longer histories over base texts: dump, code, '
+             'parents and used names equal a fresh parse after every step',
+             'partly applicable: no inductive invariant for the copy conditions within reach; the core is bounded only'),
     'C05': C('4 C05', 'exact table obligations (T) on all grammars + bounded conformance monitor against an independent EBNF reading',
              'T: automaton language = rule right-hand side, plan chains, LL(1) facts for all rules/states; B: every non-error '
              'node is a sentence of its rule (modulo documented conventions), errors only where a statement/block is expected',
@@ -52,28 +64,33 @@ CHECKS = {
              'T: FIRST-exact transitions, plan chains, no nullable rule, no FOLLOW conflict on all 9 tables; D: token->label; '
              'B: one derivation per arc, strict parse returns the collapsed derivation, recovering parse identical',
              'M-LL1 paper lemma; I_stack not discharged'),
-    'C07': C('4 C07', 'frame/effect obligations over the real call graph + VCs of _recovery_tokenize and the parser constructors; relational bounded contract',
-             'D: mode flag read only at declared points and after the shared leniency branch, dedent filter armed only when '
-             'recovering, error objects constructed only in error_recovery/_stack_removal, token filter is the identity while '
-             'the filter is empty; ' + _B,
+    'C07': C('4 C07', 'VCs of what strict mode raises (exception-object postconditions), frame/effect obligations over the real call graph, '
+             'VCs of _recovery_tokenize and the parser constructors; relational bounded contract',
+             'D: BaseParser.error_recovery never returns and raises ParserSyntaxError whose error leaf is the offending token '
+             '(text, prefix, position); Parser.error_recovery in strict mode returns only through the shared missing-final-newline '
+             'branch; the clause is carried through _add_token; mode flag read only at declared points and after the shared '
+             'leniency branch, dedent filter armed only when recovering, error objects constructed only in '
+             'error_recovery/_stack_removal, token filter is the identity while the filter is empty; ' + _B,
              'M-2RUN self-composition step is a paper argument'),
     'C08': C('4 C08', 'exact certificates on all rules/states/transitions of all shipped grammars (T) + enumerated small EBNF grammars (bounded)',
              'T: language equivalence with an independent Thompson NFA per rule, subset-construction and simplification '
              'certificates, FIRST-exact transitions with push chains, reserved strings, LL(1)/left-recursion facts; B: every '
              '2-rule grammar up to size 3/4: rejected iff not LL(1), else certificates',
              'graph algorithms themselves not proved (certificate route); M-SUBSET'),
-    'C09': C('4 C09', 'RegLan obligations on the live patterns (z3) + VCs of PrefixPart; bounded token-stream contract',
+    'C09': C('4 C09', 'RegLan obligations on the live patterns (z3) + VCs of PrefixPart and of the f-string / illegal-name helpers; bounded token-stream contract',
              'D: dispatch facts of the pseudo-token pattern (9 versions), part invariants and totality of the prefix re-lexer '
-             '(refuted: known finding), PrefixPart positions; ' + _B,
-             'tokenize_lines tiling/balance/positions bounded only'),
+             '(refuted: known finding), PrefixPart positions, _close_fstring_if_necessary (prefix purity + tiling), '
+             '_find_fstring_string, _split_illegal_unicode_name; ' + _B,
+             'tokenize_lines main loop (tiling/balance/positions) bounded only'),
     'C10': C('4 C10', 'RegLan equivalence of lexeme classes with the running CPython\'s tokenize regex grammar; bounded stream comparison with CPython 3.12 only',
              'D: Number/Comment/ASCII-name languages equal, operators covered, maximal munch, string prefixes, 9 versions; '
              'B: token stream equals tokenize.generate_tokens on programs CPython 3.12 compiles',
              'narrow claim: reference interpreters 3.6-3.11, 3.13 absent; stream level only for 3.12'),
     'C11': C('4 C11', 'VCs over a heap model with ghost in-order leaf numbering, discharged by z3; bounded monitor',
-             'D: get_root_node, next/previous sibling, next/previous leaf, first/last leaf (all overrides), __eq__ identity; '
+             'D: get_root_node, next/previous sibling, next/previous leaf, first/last leaf (all overrides), search_ancestor, '
+             '__eq__ identity, get_leaf_for_position and its binary-search closure (ghost fge); '
              + _B + ' (every position of the text incl. outside borders)',
-             'get_leaf_for_position, search_ancestor, get_name_of_position bounded only; wf(tree) is a precondition'),
+             'get_name_of_position bounded only; wf(tree) is a precondition'),
     'C13': C('4 C13', 'effect obligations (tree unchanged, no shared writes), class-table obligations on the rule registry, VCs of issue construction; bounded contract of iter_errors',
              'D: no function reachable from iter_errors stores to a tree field or shared state; T: all 31 registered rule classes '
              'carry code 901/903 with the matching message prefix, call-site signature; VCs: _add_syntax_error, '
@@ -85,12 +102,19 @@ CHECKS = {
              'D: parso finds a declaration exactly in the CR-free sources where CPython does; B: split_lines on all strings <=4/5 '
              'over 13 separator characters, decoding vs tokenize.detect_encoding on all <=4/5 atom byte strings',
              'split_lines proof not attempted (exhaustive bounded instead); str(bytes, enc) trusted'),
-    'C16': C('4 C16', 'model-free history enumeration with the contract as monitor (bounded), logical clock environment',
-             'all histories <=3 (quick) over write/touch/parse x3/drop/delete/race x files x grammars x cache dirs, GC trigger '
-             'at 600 and 1: tree equals fresh parse of current content',
-             'ghost-file-system VCs of DESIGN 4/C16 not built; known finding: read-then-stat race'),
-    'C17': C('4 C17', 'exception-effect (raises) inclusion over the call graph with trusted primitive raise sets; corruption and fault enumeration (bounded)',
-             'D: nothing escapes _load_from_file_system / try_to_save_module, only the source stat error escapes load_module; '
+    'C16': C('4 C16', 'VCs of the cache functions over a ghost environment (mtime / content version / ghost file system), discharged by z3; '
+             'model-free history enumeration with the contract as monitor (bounded), logical clock environment',
+             'D: _set_cache_item stores under exactly (grammar, path), GC only removes; load_module serves a memory entry only if '
+             'it is the tree of the version at the mtime observed now; _load_from_file_system serves a pickle only if it is not '
+             'older than the source and unpickles to a cache item (assumed contracts of os.path.getmtime/open/pickle.load); B: all '
+             'histories <=3 (quick) over write/touch/parse x3/drop/delete/race x files x grammars x cache dirs + structured 6-step '
+             'histories, GC trigger at 600 and 1: tree equals fresh parse of current content',
+             'that try_to_save_module establishes the representation invariants is not proved (memory: known finding read-then-stat '
+             'race; disk: DISK-INV assumed)'),
+    'C17': C('4 C17', 'exception-effect (raises) inclusion over the call graph with trusted primitive raise sets; VC of the disk load; '
+             'corruption and fault enumeration (bounded)',
+             'D: nothing escapes _load_from_file_system / try_to_save_module, only the source stat error escapes load_module; VC: '
+             '_load_from_file_system returns None or a checked item whatever the primitives raise or return; '
              'B: every truncation offset, 9 corruptions, 288 fault injections',
              'atomic replace / two-process interleavings not modelled'),
     'C18': C('4 C18', 'frame (modifies) obligations over the call graph of parse/iter_errors/tokenize; run-time frame monitor (bounded)',
@@ -98,10 +122,13 @@ CHECKS = {
              'write-once memo tables; no ambient reads; B: deep fingerprint of shared state, repeat/history independence, '
              'load orders, 8-thread smoke',
              'M-NI non-interference lemma is a paper argument; schedules are not explored'),
-    'C19': C('4 C19', 'class-table protocol obligations (T) + small VCs; bounded dump/eval, pickle, refactor',
-             'T: constructor/dump/slots/import-name protocol over all tree classes; D: __eq__/__hash__, start_pos setter; '
-             + _B,
-             '_format_dump text and refactor splice bounded only'),
+    'C19': C('4 C19', 'VCs of the refactoring visitor against a recursive splice spec function and of the tree constructors (z3); class-table '
+             'protocol obligations (T); bounded dump/eval, pickle, refactor',
+             'D: RefactoringNormalizer.visit / visit_leaf and the inherited Normalizer.visit / visit_leaf compute rcode(map, node) = '
+             'the text of the tree with every mapped node replaced by its string; __eq__/__hash__, start_pos setter, '
+             'constructors store their fields and set every child\'s parent, get_code family; T: constructor/dump/slots/import-name '
+             'protocol over all tree classes; ' + _B,
+             '_format_dump text bounded only; Normalizer.walk / Grammar.refactor wrappers not under contract'),
     'C20': C('4 C20', 'effect obligations (tree unchanged), call-site signature contract, VCs of issue equality and de-duplication; bounded contract of the PEP 8 normalizer',
              'D: no function reachable from _get_normalizer_issues stores to a tree field; all 46 add_issue call sites pass '
              '(node, int, str); VCs: Issue.__eq__, Normalizer.add_issue never records a (code, position) pair twice, '
